@@ -6,7 +6,9 @@ import (
 	"fmt"
 	"math/rand"
 	"os"
+	"os/exec"
 	"path/filepath"
+	"regexp"
 	"sort"
 	"strings"
 	"sync"
@@ -365,7 +367,50 @@ func runC10(args []string) {
 		fmu.Unlock()
 	})
 	r.Set("reader_fault_cells", len(cells))
+	if r.Thorough() {
+		c10Fuzz(r)
+	}
 	finish(r)
+}
+
+var fuzzFailRe = regexp.MustCompile(`Failing input written to (\S+)`)
+
+// c10Fuzz: coverage-guided tier (native Go fuzzing, bounded by execution count) with the
+// same oracle inside the fuzz target (harness/fuzz).
+func c10Fuzz(r *core.Run) {
+	execs := "1500000x"
+	cmd := exec.Command("go", "test", "-run", "^$", "-fuzz", "FuzzReadFile", "-fuzztime", execs, "./fuzz")
+	cmd.Dir = filepath.Join(core.Root(), "harness")
+	cmd.Env = append(os.Environ(), "VERIF_REPO="+core.Repo())
+	out, err := cmd.CombinedOutput()
+	text := string(out)
+	r.Set("fuzz_tail", core.Short(tail(text, 400), 400))
+	crashDir := filepath.Join(core.Root(), "harness", "fuzz", "testdata")
+	defer os.RemoveAll(crashDir)
+	if m := regexp.MustCompile(`execs: (\d+)`).FindAllStringSubmatch(text, -1); len(m) > 0 {
+		var n int
+		fmt.Sscan(m[len(m)-1][1], &n)
+		r.EvalN(n, "fuzz/coverage-guided")
+		r.Set("fuzz_executions", n)
+	}
+	if err == nil {
+		return
+	}
+	if m := fuzzFailRe.FindStringSubmatch(text); m != nil {
+		b, _ := os.ReadFile(filepath.Join(core.Root(), "harness", "fuzz", m[1]))
+		clause := "termination: panic"
+		switch {
+		case strings.Contains(text, "silently dropped"):
+			clause = "completeness: appended definition silently dropped"
+		case strings.Contains(text, "without draining"):
+			clause = "completeness: success without draining the reader"
+		case strings.Contains(text, "did not return"):
+			clause = "termination: process died or exceeded the CPU budget"
+		}
+		r.Violate(clause, map[string]string{"input": "fuzz"}, map[string]any{"go_fuzz_corpus_entry": string(b), "output": core.Short(tail(text, 1500), 1500)})
+		return
+	}
+	r.Inconclusive("go test -fuzz failed without a failing input: " + core.Short(tail(text, 200), 200))
 }
 
 func siteOf(site []string) string {
